@@ -175,12 +175,24 @@ class BuildResult:
         self.failed = []            # (name, reason)
 
 
+def audit_imports(prop):
+    mods = []
+    for path in audit_files(prop):
+        for line in open(path, encoding="utf-8"):
+            m = re.match(r"\s*import\s+(\S+)", line)
+            if m and m.group(1) not in mods:
+                mods.append(m.group(1))
+    return mods
+
+
 def build_and_audit(prop):
     """Rebuild from the current tree and audit the theorems of `prop`.
+    Only the model driver and the proof modules of THIS property are built, so that a broken
+    obligation of another property (e.g. a regenerated table theorem) does not raise an alarm here.
     Cached per content hash so that consecutive checks do not repeat work."""
     res = BuildResult()
     with build_lock():
-        res.gen_problems = run_gen()
+        res.gen_problems = [p for p in run_gen() if GEN_OWNER.get(p.split(":")[0], prop) == prop]
         key = _hash_tree([os.path.join(LEAN, "CklVerif"), os.path.join(LEAN, "lakefile.toml"),
                           os.path.join(LEAN, "Main.lean"), os.path.join(LEAN, "CklVerif.lean")])
         stamp = os.path.join(CACHE, "build.json")
@@ -191,34 +203,42 @@ def build_and_audit(prop):
             except Exception:
                 cache = {}
         if cache.get("key") != key or not os.path.exists(DRIVER):
-            rc, log = lake_build()
+            rc, log = lake_build(["driver"])
             cache = {"key": key, "rc": rc, "log": log[-20000:], "audit": {}}
             cache["forbidden"] = forbidden_tokens()
         res.ok = cache["rc"] == 0
         res.log = cache.get("log", "")
         res.forbidden = cache.get("forbidden", [])
-        if res.ok and prop not in cache["audit"]:
-            requested, results, errors = run_audit(prop)
-            cache["audit"][prop] = {"requested": requested, "results": results, "errors": errors}
-        json.dump(cache, open(stamp, "w"))
-    a = cache.get("audit", {}).get(prop) if res.ok else None
-    if a is None:
-        res.obligations = ["<lake build>"]
-        res.failed.append(("<lake build>", "the Lean project does not build: " + res.log[-800:]))
-    else:
-        res.obligations = sorted(a["results"].keys())
-        for t, ax in a["results"].items():
-            if set(ax) <= ALLOWED_AXIOMS:
-                res.discharged.append(t)
+        if prop not in cache["audit"]:
+            mods = audit_imports(prop)
+            rc2, log2 = lake_build(mods) if mods else (0, "")
+            if rc2 != 0:
+                cache["audit"][prop] = {"requested": 1, "results": {}, "errors": ["proof modules do not build: " + log2[-1500:]]}
             else:
-                res.failed.append((t, f"depends on axioms {ax}"))
-        missing = a["requested"] - len(a["results"])
-        if missing > 0 or a["errors"]:
-            res.obligations += [f"<unresolved #{i + 1}>" for i in range(max(missing, 1))]
-            res.failed.append(("<audit>", f"{missing} audited theorem(s) did not check: {a['errors'][:2]}"))
+                requested, results, errors = run_audit(prop)
+                cache["audit"][prop] = {"requested": requested, "results": results, "errors": errors}
+        json.dump(cache, open(stamp, "w"))
+    a = cache["audit"][prop]
+    if not res.ok:
+        res.obligations = ["<model driver build>"]
+        res.failed.append(("<model driver build>", "the executable model does not build: " + res.log[-800:]))
+    res.obligations += sorted(a["results"].keys())
+    for t, ax in a["results"].items():
+        if set(ax) <= ALLOWED_AXIOMS:
+            res.discharged.append(t)
+        else:
+            res.failed.append((t, f"depends on axioms {ax}"))
+    missing = a["requested"] - len(a["results"])
+    if missing > 0 or a["errors"]:
+        res.obligations += [f"<unresolved #{i + 1}>" for i in range(max(missing, 1))]
+        res.failed.append(("<audit>", f"{max(missing, 1)} audited theorem(s) did not check: {a['errors'][:2]}"))
     for f in res.forbidden:
         res.failed.append(("<source audit>", f))
     return res
+
+
+# which property an extractor problem belongs to (prefix of the problem text)
+GEN_OWNER = {"natives extractor": "C09"}
 
 
 # ----------------------------------------------------------------------------
